@@ -416,8 +416,13 @@ func init() {
 		return zeroValue(timeT)
 	})
 	simple("github.com/akrylysov/pogreb/internal/hash.RandSeed", func(s *State, a []Value) Value {
-		stats.fresh++
-		v := Var(fmt.Sprintf("seed!%d", stats.fresh), 32)
+		// crypto/rand stub: one arbitrary (symbolic) 32-bit seed per run; the same
+		// value is returned on every call so that replays can pin it.
+		stats.stubs["hash.RandSeed:symbolic"]++
+		v := Var("hashseed", 32)
+		if pinned != nil {
+			v = Const(32, pinned.Scalars["hashseed"])
+		}
 		return TupleV{v, IfaceV{}}
 	})
 	reg("github.com/akrylysov/pogreb/internal/hash.Sum32WithSeed", func(s *State, th *Thread, fr *Frame, args []Value, call *ssa.Call, rk retKind) (Value, bool) {
